@@ -1631,7 +1631,9 @@ def r06q(ctx, rep, rule="R06q"):
     rep.rule(rule, "only data reach the literal converter: Heap::maybe_put_cell panics on the three Cell variants that exist for "
              "printing only (Procedure, Macro, Continuation). (i) Those variants are constructed only in Heap::get_as_cell "
              "(outside derived impls and tests); (ii) of the functions that call get_as_cell, only the eval builtin reaches "
-             "the compiler, and there the call of Vm::compile is reachable only through the true edge of Cell::is_datum.")
+             "the compiler, and there the call of Vm::compile is reachable only through the true edge of Cell::is_datum; (iii) the "
+             "same holds for the public entry point Vm::prepare_eval (behind Vm::eval), which takes a Cell of the host's making — "
+             "the result of an earlier evaluation, say, put back inside a quotation.")
     bad = []
     n = 0
     for p, f in sorted(facts.fns.items()):
@@ -1657,7 +1659,15 @@ def r06q(ctx, rep, rule="R06q"):
         if f.crate == "marwood" and any((callee(t) or "").endswith("Heap::get_as_cell") for bb, t in f.calls()):
             if p not in ("marwood::vm::heap::Heap::get_as_cell", "marwood::vm::heap::Heap::get_as_cell_under") and compile_entry in cg.reachable_from([p]) and p.startswith("marwood::vm::builtin::"):
                 reach_compile.add(p)
-    for p in sorted(reach_compile):
+    # the host hands the evaluator a Cell of its own making (Cell is a public enum, and results of earlier evaluations
+    # contain the printing-only variants): the public entry point is a way into the compiler too
+    PREPARE = "marwood::vm::Vm::prepare_eval"
+    entries = sorted(reach_compile)
+    if PREPARE in facts.fns:
+        entries.append(PREPARE)
+    else:
+        rep.anchor_lost(rule, PREPARE)
+    for p in entries:
         f = facts.fns[p]
         comp = [(bb, t) for bb, t in f.calls() if compile_entry in cg.reachable_from([callee(t) or ""]) or callee(t) == compile_entry]
         tests = [(bb, t) for bb, t in f.calls() if (callee(t) or "").endswith("Cell::is_datum")]
@@ -1704,7 +1714,7 @@ def r06q(ctx, rep, rule="R06q"):
             ok = ok and not any(bb in seen for bb, t in comp)
         (rep.ok if ok else rep.fail)(rule, "%s|%s|datum-guard" % (rule, f.short.rsplit("::", 1)[-1]),
                                      "%s compiles the converted value only after Cell::is_datum accepted it" % f.short if ok else
-                                     "%s converts a run-time value to a Cell and hands it to the compiler without the is_datum test: a "
+                                     "%s hands a Cell that did not come from the reader to the compiler without the is_datum test: a "
                                      "procedure, macro or continuation value inside a quotation reaches maybe_put_cell's panic" % f.short, [f.span])
     rep.floor(rule, "builtins that compile a converted run-time value (eval)", len(reach_compile), 1)
 
